@@ -171,8 +171,29 @@ def accept_steps(reg, A, T, lo, hi, bx, tag=''):
             lambda k, cr=cr: dict(ax0=cell(k - cr), ay0=cell(k - cr + 1), ax1=cell(k - cr + 2), ay1=cell(k - cr + 3),
                                   x0=x0, y0=y0, x1=x1, y1=y1),
             patterns=lambda k: [z3.Select(A, (k + 2).z())])))
-        # (2) hence: a vertex in the box or a segment meeting it
-        out.append((f'{tag}{nm}-accept-is-right', Implies(slab, Or(vert, seg)), ['req:', 'lemma:']))
+        # (2) under the slab condition: a vertex in the box, or an adjacent pair of vertices across the slab's lower end
+        def pair(k, cr=cr, lvl_lo=lvl_lo):
+            return And(k >= lo + cr, k + 2 < hi + cr, (k - lo - cr) % 2 == 0,
+                       Or(And(cell(k) < lvl_lo, cell(k + 2) >= lvl_lo), And(cell(k) >= lvl_lo, cell(k + 2) < lvl_lo)))
+        some_pair = exists('int', pair)
+        axn = 'xy'[cr]
+        base = ['req:', f'lemma:MINV_attained-{axn}', f'lemma:MAXV_attained-{axn}', 'lemma:MINV_lower_bound', 'lemma:MAXV_upper_bound']
+        low_in = mn[cr] >= lvl_lo          # the lowest vertex is not below the slab: it is in the box
+        tw = p - cr                         # cell position of the x of the lowest vertex (explicit witness)
+        out.append((f'{tag}{nm}-lowest-vertex', Implies(And(slab, low_in), And(
+            tw >= lo, tw + 1 < hi, (tw - lo) % 2 == 0, in_box(cell(tw), cell(tw + 1), bx))), base))
+        out.append((f'{tag}{nm}-lowest-vertex-in-box', Implies(And(slab, low_in), vert), [f'hint:{tag}{nm}-lowest-vertex']))
+        out.append((f'{tag}{nm}-upward-pair', Implies(And(slab, Not(low_in), p < q), some_pair), base + [f'lemma:{nm}-up']))
+        out.append((f'{tag}{nm}-downward-pair', Implies(And(slab, Not(low_in), q < p), some_pair), base + [f'lemma:{nm}-down']))
+        out.append((f'{tag}{nm}-extremes-differ', Implies(And(slab, Not(low_in)), p != q), base))
+        out.append((f'{tag}{nm}-vertex-or-crossing-pair', Implies(slab, Or(vert, some_pair)),
+                    [f'hint:{tag}{nm}-lowest-vertex-in-box', f'hint:{tag}{nm}-upward-pair', f'hint:{tag}{nm}-downward-pair',
+                     f'hint:{tag}{nm}-extremes-differ']))
+        # (3) such a pair is a segment meeting the box (its other coordinate lies inside the slab)
+        out.append((f'{tag}{nm}-crossing-pair-meets', Implies(And(slab, some_pair), seg),
+                    ['req:', f'lemma:{nm}-crossing-segment-meets', 'lemma:MINV_lower_bound', 'lemma:MAXV_upper_bound']))
+        out.append((f'{tag}{nm}-accept-is-right', Implies(slab, Or(vert, seg)),
+                    [f'hint:{tag}{nm}-vertex-or-crossing-pair', f'hint:{tag}{nm}-crossing-pair-meets']))
     return out
 
 
